@@ -165,6 +165,7 @@ template <class K, sz N, class KX, class KY> void strided_pair(rvec<N> const &u,
     C14_EQ(bt.b.raw(), bt.b.with(rawx, w), sg + ":assign:other_view_to_view", "X=Y");
     T *= 3;
     C14_EQ(bt.b.raw(), bt.b.with(rawx, rvscal(3, w)), sg + ":scalar_assign", "X*=3");
+    if constexpr (int_writes_ok)
     static_for<N>([&](auto ii) {
       constexpr sz i = decltype(ii)::value;
       rvec<N> nv = rvscal(3, w);
